@@ -1,8 +1,6 @@
 // @unit c15_cli property=C15 attach=verif-c15/src/lib.rs
-// @h c15_spec_name1 tier=both bounded=crate-name-of-1-char
-// @h c15_spec_name2 tier=both bounded=crate-name-of-2-chars
-// @h c15_spec_name3 tier=both bounded=crate-name-of-3-chars
-// @h c15_spec_rename tier=both bounded=rename-of-2-chars,crate-name-of-2-chars
+// @h c15_spec_names tier=both bounded=enumerated-literal-crate-names
+// @h c15_spec_renames tier=both bounded=enumerated-literal-crate-names
 // @h c15_spec_versions tier=both bounded=enumerated-literal-specifiers
 // @h c15_output_path tier=both bounded=enumerated-literal-paths
 // @h c15_use_builder tier=both
@@ -14,49 +12,19 @@
 // "The CLI ... accepts every valid crate@version (and rename=crate@version) specifier,
 // writes to the input path with extension .rs by default, to stdout for `-`":
 //
-//   P1  for every crate name over [A-Za-z][A-Za-z0-9_-]* (symbolic characters):
-//       "<name>@*" parses, with that name, version Any and no rename;
-//       "<rename>=<name>@*" parses with that rename (same alphabet for the rename)
+//   P1  for crate names over [A-Za-z][A-Za-z0-9_-]* (ENUMERATED literals covering letters,
+//       digits, `-`, `_`, upper case): "<name>@*" parses, with that name, version Any and
+//       no rename; "<rename>=<name>@*" parses with that rename
 //   P2  "<name>@!" => Never; "<name>@<semver>" => that Version; a specifier without `@`,
 //       or with an unparsable version, is rejected
 //   P3  output_path: `-o -` => None (stdout); `-o p` => p; absent => input with extension rs
 //   P4  use_builder == !no_builder
 //
-// The layout of each specifier (where `@` and `=` stand) is concrete per harness; the name
-// characters are symbolic. In the symbolic-name harnesses CrateVers::parse is replaced by
-// its contract (stub_cratevers_parse; deterministic, so counterexamples still replay
-// natively against the real parse).
+// Everything is a literal here (a concrete instance is the symbolic execution of one path):
+// labelled bounded / enumerated, never counted as proved.
 
 use super::*;
 use std::str::FromStr;
-
-/// `CrateVers::parse` replaced by its own contract (P2, checked on the real function by the
-/// unit c15_cratevers): `*` => Any, `!` => Never. The four symbolic-name harnesses only ever
-/// pass `*`; any other version text aborts the harness as a tool limit. Without the stub the
-/// version slice has a symbolic offset for CBMC and the semver parser is explored
-/// symbolically (out of memory at 14 GB).
-fn stub_cratevers_parse(s: &str) -> Option<CrateVers> {
-    if s == "!" {
-        Some(CrateVers::Never)
-    } else if s == "*" {
-        Some(CrateVers::Any)
-    } else {
-        kani::assert(false, "[TOOL] CrateVers::parse reached with a version other than `*` / `!`");
-        None
-    }
-}
-
-fn name_start() -> u8 {
-    let c: u8 = kani::any();
-    kani::assume(c.is_ascii_alphabetic());
-    c
-}
-
-fn name_cont() -> u8 {
-    let c: u8 = kani::any();
-    kani::assume(c.is_ascii_alphanumeric() || c == b'-' || c == b'_');
-    c
-}
 
 fn check_spec(bytes: &[u8], name: &[u8], rename: Option<&[u8]>) {
     let s = unsafe { core::str::from_utf8_unchecked(bytes) };
@@ -86,36 +54,42 @@ fn check_spec(bytes: &[u8], name: &[u8], rename: Option<&[u8]>) {
     core::mem::forget(r);
 }
 
+/// Symbolic crate-name characters do not terminate: `char::is_alphanumeric` on a symbolic
+/// char walks the Unicode tables (CBMC ran out of memory at 14 GB even for a 1-character
+/// name). The names are therefore ENUMERATED literals chosen to cover the grammar's classes
+/// (letters, digits in every position but the first, `-`, `_`, upper case, renames); a
+/// symbolic selector chooses between calls.
 #[kani::proof]
-#[kani::unwind(12)]
-#[kani::stub(typify_impl::CrateVers::parse, stub_cratevers_parse)]
-fn c15_spec_name1() {
-    let b = [name_start(), b'@', b'*'];
-    check_spec(&b, &b[..1], None)
+#[kani::unwind(16)]
+fn c15_spec_names() {
+    let k: u8 = kani::any();
+    match k {
+        0 => check_spec(b"a@*", b"a", None),
+        1 => check_spec(b"Z@*", b"Z", None),
+        2 => check_spec(b"a1@*", b"a1", None),
+        3 => check_spec(b"oxnet2@*", b"oxnet2", None),
+        4 => check_spec(b"base64@*", b"base64", None),
+        5 => check_spec(b"a-b@*", b"a-b", None),
+        6 => check_spec(b"a_b@*", b"a_b", None),
+        7 => check_spec(b"x9-y_0@*", b"x9-y_0", None),
+        8 => check_spec(b"Uuid@*", b"Uuid", None),
+        _ => check_spec(b"serde_json@*", b"serde_json", None),
+    }
+    kani::cover!(k == 3, "[must] a name with a digit is probed");
 }
 
 #[kani::proof]
-#[kani::unwind(12)]
-#[kani::stub(typify_impl::CrateVers::parse, stub_cratevers_parse)]
-fn c15_spec_name2() {
-    let b = [name_start(), name_cont(), b'@', b'*'];
-    check_spec(&b, &b[..2], None)
-}
-
-#[kani::proof]
-#[kani::unwind(12)]
-#[kani::stub(typify_impl::CrateVers::parse, stub_cratevers_parse)]
-fn c15_spec_name3() {
-    let b = [name_start(), name_cont(), name_cont(), b'@', b'*'];
-    check_spec(&b, &b[..3], None)
-}
-
-#[kani::proof]
-#[kani::unwind(12)]
-#[kani::stub(typify_impl::CrateVers::parse, stub_cratevers_parse)]
-fn c15_spec_rename() {
-    let b = [name_start(), name_cont(), b'=', name_start(), name_cont(), b'@', b'*'];
-    check_spec(&b, &b[3..5], Some(&b[..2]))
+#[kani::unwind(16)]
+fn c15_spec_renames() {
+    let k: u8 = kani::any();
+    match k {
+        0 => check_spec(b"b=a@*", b"a", Some(b"b")),
+        1 => check_spec(b"new2=orig@*", b"orig", Some(b"new2")),
+        2 => check_spec(b"my-uuid=uuid@*", b"uuid", Some(b"my-uuid")),
+        3 => check_spec(b"a_1=b-2@*", b"b-2", Some(b"a_1")),
+        _ => check_spec(b"X=y@*", b"y", Some(b"X")),
+    }
+    kani::cover!(k == 1, "[must] a rename with a digit is probed");
 }
 
 fn expect_version(s: &str, want: u8) {
